@@ -61,6 +61,7 @@ pub fn c03_mirror_opt2() {
 }
 
 // @h prop=C03 tier=thorough kind=proof engine=both inst="FlatStack<MirrorRegion<usize>, IndexOptimized>" bounds="3 copies of unconstrained usize" desc="as c03_mirror_opt2, longer"
+#[cfg(feature = "thorough")]
 #[cfg_attr(kani, kani::proof, kani::unwind(6))]
 pub fn c03_mirror_opt3() {
     mirror_seq::<IndexOptimized, 3>(false);
@@ -73,6 +74,7 @@ pub fn c03_mirror_list2() {
 }
 
 // @h prop=C03 tier=thorough kind=proof engine=both inst="FlatStack<MirrorRegion<usize>, IndexList<Vec<u32>,Vec<u64>>>" bounds="3 copies of unconstrained usize" desc="as c03_mirror_list2, longer"
+#[cfg(feature = "thorough")]
 #[cfg_attr(kani, kani::proof, kani::unwind(6))]
 pub fn c03_mirror_list3() {
     mirror_seq::<IL, 3>(false);
@@ -154,6 +156,7 @@ pub fn c03_ops_cip_opt() {
 }
 
 // @h prop=C03 tier=thorough kind=proof inst="FlatStack<ConsecutiveIndexPairs<OwnedRegion<u8>>, IndexList>" bounds="3 values of 2, 0, 3 symbolic bytes; same operations" desc="as c03_ops_owned_vec with the u32/u64 list"
+#[cfg(feature = "thorough")]
 #[cfg_attr(kani, kani::proof, kani::unwind(6))]
 pub fn c03_ops_cip_list() {
     bytes_ops::<Cip, ListDense>();
